@@ -96,7 +96,7 @@ func parseFloatCall(v ssa.Value) *ssa.Call {
 }
 
 func ruleNumLiteral(w *World, r *Report) {
-	r.rule("C08-LIT", "every scanner method returning float64 returns, on each normal return, element 0 of a strconv.ParseFloat call whose argument is a slice of the scanner's text — never a value computed from it (one correctly rounded conversion per literal); the scanner's float64 field is only ever assigned such a method's result; and the parser hands that field, unmodified, to the constant-operand constructor")
+	r.rule("C08-LIT", "every scanner method returning float64 returns, on each normal return, element 0 of a strconv.ParseFloat call whose argument is a slice of the scanner's text — never a value computed from it (one correctly rounded conversion per literal); the scanner's float64 field is only ever assigned such a method's result; and the parser hands that field, unmodified, to the constant-operand constructor; the scanner followed by constant propagation from a digit and from '.', with positions counted from the start of the token: the slice converted is exactly the characters consumed for the token")
 	g, err := w.grammar()
 	if err != nil {
 		r.bad("ANCHOR", "C08-LIT", "", err.Error())
@@ -173,6 +173,43 @@ func ruleNumLiteral(w *World, r *Report) {
 			} else {
 				r.ok("C08-LIT", key, w.instrPos(ret), "the ParseFloat result is returned unmodified")
 			}
+		}
+	}
+	// the text converted is the text of the token: the scanner followed from a
+	// digit and from '.', positions counted from the start of the token
+	{
+		nspan := 0
+		bad := ""
+		var badAt ssa.Instruction
+		undec := ""
+		for _, c := range []rune{'0', '7', '.'} {
+			for _, o := range w.scanFrom(g, c) {
+				if o.Panicked {
+					continue
+				}
+				if o.Cut {
+					continue // longer digit runs than followed: the loop bodies are covered by the shorter ones
+				}
+				for _, sp := range o.Spans {
+					nspan++
+					switch {
+					case !sp.Known || sp.Consumed < 0:
+						undec = "the bounds of the slice handed to strconv.ParseFloat are not constants relative to the start of the token"
+					case sp.Lo != tokenStart || sp.Hi != tokenStart+sp.Consumed:
+						bad = fmt.Sprintf("for a literal that starts with %q and has consumed %q (%d characters) the scanner converts the text from offset %+d to offset %+d relative to the first character of the token, not the %d characters of the token: a character of the literal is dropped or a foreign one included (.5 read as 5)", string(c), o.Text, sp.Consumed, sp.Lo-tokenStart, sp.Hi-tokenStart, sp.Consumed)
+						badAt = sp.At
+					}
+				}
+			}
+		}
+		key := "literal-span"
+		switch {
+		case bad != "":
+			r.bad("C08-LIT", key, w.instrPos(badAt), bad)
+		case undec != "" || nspan == 0:
+			r.undec("C08-LIT", key, w.pos(g.NextItem.Pos()), "number literals could not be followed through the scanner: "+undec)
+		default:
+			r.ok("C08-LIT", key, w.pos(g.NextItem.Pos()), fmt.Sprintf("on %d paths from a digit or '.', the text handed to strconv.ParseFloat is exactly the characters consumed for the token", nspan))
 		}
 	}
 	// the numeric field of the scanner
@@ -1497,4 +1534,210 @@ func (w *World) returnsFreshExported(h *ssa.Function) bool {
 		}
 	}
 	return n > 0
+}
+
+// ---------- C12-SELF ----------
+
+// ruleEvalSelf: a query that declares itself a node-set (its ValueType is the
+// value the context-reading leaf producers declare) is its own value: its
+// Evaluate returns the receiver on every path. count(), reverse(), the
+// comparison cells and the exported Evaluate all iterate what Evaluate
+// returned; a query that hands back one of its parts instead is iterated from
+// the wrong place (count(a/b[2]) = 0 while Select finds the nodes).
+func ruleEvalSelf(w *World, r *Report) {
+	r.rule("C12-SELF", "every query type whose ValueType is constantly the node-set code (the code the context-reading leaf producers declare) returns its own receiver from Evaluate on every path: the value of a node-set expression is the query itself")
+	sel, ev := w.selectMethod(), w.evaluateMethod()
+	vtName := ""
+	for i := 0; i < w.QueryIface.NumMethods(); i++ {
+		m := w.QueryIface.Method(i)
+		sig := m.Type().(*types.Signature)
+		if sig.Params().Len() == 0 && sig.Results().Len() == 1 {
+			if n, ok := sig.Results().At(0).Type().(*types.Named); ok {
+				if bt, ok := n.Underlying().(*types.Basic); ok && bt.Info()&types.IsInteger != 0 && !w.isQueryType(n) {
+					// two such methods exist (value type, properties): the value type is the one the builder compares
+					if vtName == "" || m.Name() < vtName {
+						vtName = m.Name()
+					}
+				}
+			}
+		}
+	}
+	// the code a method constantly returns: (global, field index), or ""
+	codeOf := func(fn *ssa.Function) string {
+		if fn == nil {
+			return ""
+		}
+		code := ""
+		for _, b := range fn.Blocks {
+			ret, ok := normalReturn(b)
+			if !ok || len(ret.Results) != 1 {
+				continue
+			}
+			ld, ok := strip(ret.Results[0]).(*ssa.UnOp)
+			if !ok || ld.Op != token.MUL {
+				return ""
+			}
+			fa, ok := ld.X.(*ssa.FieldAddr)
+			if !ok {
+				return ""
+			}
+			g, ok := fa.X.(*ssa.Global)
+			if !ok {
+				return ""
+			}
+			k := fmt.Sprintf("%s.%d", g.Name(), fa.Field)
+			if code != "" && code != k {
+				return ""
+			}
+			code = k
+		}
+		return code
+	}
+	// candidates for the value-type method: the parameterless int-coded methods
+	nodeSet := ""
+	var vtMethod string
+	for i := 0; i < w.QueryIface.NumMethods(); i++ {
+		m := w.QueryIface.Method(i)
+		sig := m.Type().(*types.Signature)
+		if sig.Params().Len() != 0 || sig.Results().Len() != 1 {
+			continue
+		}
+		// what the context-reading leaf producers return from it
+		codes := map[string]int{}
+		for _, qt := range w.census.Types {
+			hasQ := false
+			for _, f := range qt.Fields {
+				if f.IsQuery {
+					hasQ = true
+				}
+			}
+			sfn := qt.Methods[sel]
+			if hasQ || sfn == nil {
+				continue
+			}
+			usesCtx := false
+			eachInstr(sfn, false, func(_ *ssa.Function, in ssa.Instruction) {
+				if c, ok := in.(*ssa.Call); ok && w.isContextRegister(c) {
+					usesCtx = true
+				}
+			})
+			if !usesCtx {
+				continue
+			}
+			if c := codeOf(qt.Methods[m.Name()]); c != "" {
+				codes[c]++
+			}
+		}
+		if len(codes) == 1 {
+			for c, n := range codes {
+				if n >= 2 && (vtMethod == "" || m.Name() == vtName) {
+					// both leaf producers agree on one code: candidates are the value type and the
+					// properties; the value type is the one whose code other, non-node-set, types do not share
+					nodeSet, vtMethod = c, m.Name()
+				}
+			}
+		}
+	}
+	_ = vtName
+	if nodeSet == "" {
+		r.bad("ANCHOR", "C12-SELF", "", "the node-set value-type code could not be derived from the leaf producers")
+		return
+	}
+	n := 0
+	for _, qt := range w.census.Types {
+		if codeOf(qt.Methods[vtMethod]) != nodeSet {
+			continue
+		}
+		efn := qt.Methods[ev]
+		if efn == nil || len(efn.Blocks) == 0 {
+			continue
+		}
+		// the empty node-set (a Select that only ever answers nil) has nothing to iterate
+		if sfn := qt.Methods[sel]; sfn != nil {
+			onlyNil := true
+			for _, b := range sfn.Blocks {
+				if ret, ok := normalReturn(b); ok && len(ret.Results) == 1 && !isNilConst(strip(ret.Results[0])) {
+					onlyNil = false
+				}
+			}
+			if onlyNil {
+				continue
+			}
+		}
+		n++
+		r.FuncsAnalysed[fnName(efn)] = true
+		key := qt.Name()
+		bad := ""
+		for _, b := range efn.Blocks {
+			ret, ok := normalReturn(b)
+			if !ok || len(ret.Results) != 1 {
+				continue
+			}
+			v := strip(retVal(ret, 0))
+			for i := 0; i < 4; i++ {
+				switch x := v.(type) {
+				case *ssa.MakeInterface:
+					v = strip(x.X)
+					continue
+				case *ssa.ChangeInterface:
+					v = strip(x.X)
+					continue
+				case *ssa.Call:
+					// a helper that hands one of its arguments back
+					if h := x.Call.StaticCallee(); h != nil && w.inPkg(h) && len(h.Blocks) > 0 {
+						pk := -1
+						same := true
+						for _, hb := range h.Blocks {
+							hr, ok := normalReturn(hb)
+							if !ok || len(hr.Results) != 1 {
+								continue
+							}
+							rv := strip(hr.Results[0])
+							for {
+								if mi, ok := rv.(*ssa.MakeInterface); ok {
+									rv = strip(mi.X)
+									continue
+								}
+								if ci, ok := rv.(*ssa.ChangeInterface); ok {
+									rv = strip(ci.X)
+									continue
+								}
+								break
+							}
+							p, ok := rv.(*ssa.Parameter)
+							if !ok {
+								same = false
+								break
+							}
+							for k, q := range h.Params {
+								if q == p {
+									if pk >= 0 && pk != k {
+										same = false
+									}
+									pk = k
+								}
+							}
+						}
+						if same && pk >= 0 && pk < len(x.Call.Args) {
+							v = strip(x.Call.Args[pk])
+							continue
+						}
+					}
+				}
+				break
+			}
+			if v != ssa.Value(efn.Params[0]) {
+				// a value receiver: the address or a copy of the receiver is not "itself" either
+				bad = fmt.Sprintf("%s.%s returns %s at %s, not the query itself: count(), reverse(), comparisons and the exported Evaluate iterate what Evaluate returns", qt.Name(), ev, describeVal(v), w.instrPos(ret))
+			}
+		}
+		if bad != "" {
+			r.bad("C12-SELF", key, w.pos(efn.Pos()), bad)
+		} else {
+			r.ok("C12-SELF", key, w.pos(efn.Pos()), "Evaluate returns the receiver")
+		}
+	}
+	if n < 8 {
+		r.bad("C12-SELF", "types", "", fmt.Sprintf("only %d node-set query types found", n))
+	}
 }
